@@ -8,8 +8,13 @@ import (
 	"verif.local/vsync/kern"
 )
 
-func Now() time.Time                  { return time.Now() }
+//go:norace
+func Now() time.Time { return time.Now() }
+
+//go:norace
 func Since(t time.Time) time.Duration { return time.Since(t) }
+
+//go:norace
 func Until(t time.Time) time.Duration { return time.Until(t) }
 
 // Timer mirrors time.Timer.
@@ -19,6 +24,7 @@ type Timer struct {
 	rt *time.Timer
 }
 
+//go:norace
 func (t *Timer) Stop() bool {
 	if t.kt != nil {
 		return t.kt.Stop()
@@ -26,6 +32,7 @@ func (t *Timer) Stop() bool {
 	return t.rt.Stop()
 }
 
+//go:norace
 func (t *Timer) Reset(d time.Duration) bool {
 	if t.kt != nil {
 		return t.kt.Reset(d)
@@ -33,6 +40,7 @@ func (t *Timer) Reset(d time.Duration) bool {
 	return t.rt.Reset(d)
 }
 
+//go:norace
 func inSim() *kern.Kernel {
 	if k := kern.Cur(); k != nil && k.Me() != nil {
 		return k
@@ -40,6 +48,7 @@ func inSim() *kern.Kernel {
 	return nil
 }
 
+//go:norace
 func AfterFunc(d time.Duration, f func()) *Timer {
 	if k := inSim(); k != nil {
 		return &Timer{kt: k.AfterFunc(d, f)}
@@ -47,6 +56,7 @@ func AfterFunc(d time.Duration, f func()) *Timer {
 	return &Timer{rt: time.AfterFunc(d, f)}
 }
 
+//go:norace
 func NewTimer(d time.Duration) *Timer {
 	if k := inSim(); k != nil {
 		kt := k.NewChanTimer(d, 0)
@@ -56,6 +66,7 @@ func NewTimer(d time.Duration) *Timer {
 	return &Timer{C: rt.C, rt: rt}
 }
 
+//go:norace
 func After(d time.Duration) <-chan time.Time { return NewTimer(d).C }
 
 // Ticker mirrors time.Ticker.
@@ -66,6 +77,7 @@ type Ticker struct {
 	d  time.Duration
 }
 
+//go:norace
 func NewTicker(d time.Duration) *Ticker {
 	if d <= 0 {
 		panic("non-positive interval for NewTicker")
@@ -78,6 +90,7 @@ func NewTicker(d time.Duration) *Ticker {
 	return &Ticker{C: rt.C, rt: rt, d: d}
 }
 
+//go:norace
 func (t *Ticker) Stop() {
 	if t.kt != nil {
 		t.kt.Stop()
@@ -86,6 +99,7 @@ func (t *Ticker) Stop() {
 	t.rt.Stop()
 }
 
+//go:norace
 func (t *Ticker) Reset(d time.Duration) {
 	if t.kt != nil {
 		t.kt.Stop()
@@ -99,6 +113,7 @@ func (t *Ticker) Reset(d time.Duration) {
 	t.rt.Reset(d)
 }
 
+//go:norace
 func Tick(d time.Duration) <-chan time.Time {
 	if d <= 0 {
 		return nil
@@ -106,6 +121,7 @@ func Tick(d time.Duration) <-chan time.Time {
 	return NewTicker(d).C
 }
 
+//go:norace
 func Sleep(d time.Duration) {
 	if k := inSim(); k != nil {
 		k.Sleep(d)
